@@ -179,7 +179,9 @@ class PrettyPrinter:
 
         aligned_max_indent = 0
         if self.align_values:
-            max_key_length = self.compute_max_key_length(d) + 2  # add length of quotes
+            # every visible key of a key-value block is printed (also keys named like block keywords)
+            key_lengths = [len(k) for k in d.keys() if not self.__is_metadata(k)]
+            max_key_length = max(key_lengths, default=0) + 2  # add length of quotes
             aligned_max_indent = self.compute_aligned_max_indent(max_key_length)
 
         for k, v in d.items():
